@@ -86,6 +86,34 @@ theorem X01_points_near_symm (amb : Nat) (ax ay bx by_ t : Rat) :
   have e : (ax - bx) * (ax - bx) + (ay - by_) * (ay - by_) = (bx - ax) * (bx - ax) + (by_ - ay) * (by_ - ay) := by ring
   rw [e]
 
+/-- `square_dist` under ideal arithmetic is the squared Euclidean distance: non-negative, symmetric, zero exactly for
+coincident points -/
+theorem X01_square_dist_exact (amb : Nat) (ax ay bx by_ : Rat) :
+    Gen.square_dist Rounding.exact amb (.tup [.flt ax, .flt ay]) (.tup [.flt bx, .flt by_])
+      = .flt ((ax - bx) * (ax - bx) + (ay - by_) * (ay - by_)) := by
+  unfold Gen.square_dist
+  simp only [getItem_cons_zero, getItem_cons_succ, sub_flt_flt, mul_flt_flt, add_flt_flt, Rounding.exact, id]
+
+theorem X01_square_dist_nonneg_zero (ax ay bx by_ : Rat) :
+    0 ≤ (ax - bx) * (ax - bx) + (ay - by_) * (ay - by_) ∧
+    ((ax - bx) * (ax - bx) + (ay - by_) * (ay - by_) = 0 ↔ ax = bx ∧ ay = by_) := by
+  have h1 := mul_self_nonneg (ax - bx)
+  have h2 := mul_self_nonneg (ay - by_)
+  refine ⟨by linarith, ⟨fun h => ?_, fun ⟨h1', h2'⟩ => by subst h1'; subst h2'; ring⟩⟩
+  have e1 : (ax - bx) * (ax - bx) = 0 := by linarith
+  have e2 : (ay - by_) * (ay - by_) = 0 := by linarith
+  exact ⟨by have := mul_self_eq_zero.mp e1; linarith, by have := mul_self_eq_zero.mp e2; linarith⟩
+
+/-- a larger bound accepts everything a smaller one does (ideal arithmetic) -/
+theorem X01_points_near_mono (amb : Nat) (ax ay bx by_ t t' : Rat) (htt : t ≤ t')
+    (h : Gen.points_near Rounding.exact amb (.tup [.flt ax, .flt ay]) (.tup [.flt bx, .flt by_]) (.flt t) = .bool_ true) :
+    Gen.points_near Rounding.exact amb (.tup [.flt ax, .flt ay]) (.tup [.flt bx, .flt by_]) (.flt t') = .bool_ true := by
+  rw [X01_points_near_exact] at h ⊢
+  have h' : decide ((ax - bx) * (ax - bx) + (ay - by_) * (ay - by_) < t) = true := by
+    injection h
+  have : (ax - bx) * (ax - bx) + (ay - by_) * (ay - by_) < t' := lt_of_lt_of_le (of_decide_eq_true h') htt
+  simp [this]
+
 /-! ## `points_equal` — `math.isclose` on both coordinates (default `rel_tol = 1e-9`, `abs_tol = 0`) -/
 
 /-- the regenerated `points_equal` is `isclose` on each coordinate -/
